@@ -60,10 +60,31 @@ def case_strategy(opts=None, max_ops=4):
     return cases()
 
 
+def _quiesce(inner_dict):
+    """A crash inside one chunk write leaves the other chunk writes that zarr issued concurrently for the same task running on its
+    IO loop; 'the state after the crash' is the state once they have landed. Let the loop run until the store stops changing."""
+    import asyncio
+    import time
+
+    from zarr.core.sync import sync
+
+    last, stable = None, 0
+    for _ in range(50):
+        try:
+            sync(asyncio.sleep(0.005))
+        except Exception:
+            time.sleep(0.005)
+        n = len(inner_dict)
+        stable = stable + 1 if n == last else 0
+        last = n
+        if stable >= 3:
+            break
+
+
 def _store_arrays(inner_dict):
     """path -> (shape, bounds) for every array with metadata in the store."""
     out = {}
-    for k, v in inner_dict.items():
+    for k, v in list(inner_dict.items()):
         if k.endswith("zarr.json"):
             try:
                 m = json.loads(v.to_bytes())
@@ -182,7 +203,8 @@ def check_case(case, acc=None) -> Outcome:
                 else:
                     continue
             n_points += 1
-            snap = {kk: v.to_bytes() for kk, v in inner.items()}
+            _quiesce(inner)
+            snap = {kk: v.to_bytes() for kk, v in list(inner.items())}
             complete, partial, arrays_meta = _complete_paths(inner)
             ops_complete = {n for n, ps in produces.items() if ps and all(p in complete for p in ps)}
             ops_not_started = {n for n, ps in produces.items() if ps and all(p not in complete and p not in partial for p in ps)}
@@ -225,6 +247,7 @@ def check_case(case, acc=None) -> Outcome:
                 ts.state.crash_at_set = None
                 if crashed2:
                     labels.add("second-crash")
+                    _quiesce(inner)
                     # the first resumed run is held to the same rules: it must not have deleted or changed what existed
                     dels = [r for r in ts.state.log if r[1] in ("delete", "delete_dir")]
                     if dels:
